@@ -4,9 +4,11 @@ instantiated rows), the model is run on that event sequence by the driver, and t
 compared as canonical JSON (invented identifiers renamed by first occurrence)."""
 from __future__ import annotations
 
+import contextlib
 import copy
 import json
 
+from . import hook
 from .flows import UUID4, CompileResult, LogCapture, canon_action, canon_flow, table_from_rows
 
 
@@ -64,6 +66,8 @@ def trace_compile(headers, rows, context=None, flow_name="flow"):
     from rpft.rapidpro.models.containers import RapidProContainer
 
     raw = []
+    if hook.available():
+        return _trace_compile_hook(headers, rows, context, flow_name)
 
     class Stack(list):
         def append(self, x):
@@ -103,6 +107,56 @@ def trace_compile(headers, rows, context=None, flow_name="flow"):
             res.exc = f"{type(e).__name__}: {e}"
     res.errors = cap.errors()
     res.warnings = cap.warnings()
+    return res, _normalise_compile(raw)
+
+
+def _raw_sink(out, NodeGroup, only=None):
+    """the project's hook events (harness/hook.py) → the raw events the subclassing tracers record.
+    out(): the list being written; only(parser): whether that parser is traced"""
+    def sink(name, d):
+        if only is not None and not only(d["parser"]):
+            return
+        if name == "push":
+            out().append({"ev": "push"})
+        elif name == "pop":
+            out().append({"ev": "pop"})
+        elif name == "row":
+            out().append({"ev": "row", "row": row_json(d["row"])})
+        elif name == "noop_row":
+            if not d["store_row_id"]:
+                out().append({"ev": "begin_edges", "edges": _edges_json(d["row"])})
+        elif name == "append_group":
+            g = d["group"]
+            if isinstance(g, NodeGroup) and not getattr(g, "_inserted", False):
+                out().append({"ev": "closed", "row_id": d["row_id"] or ""})
+    return sink
+
+
+def _trace_compile_hook(headers, rows, context, flow_name):
+    """trace_compile through the project's guarded hook: the plain FlowParser, no subclass"""
+    from rpft.parsers.creation.flowparser import FlowParser, NodeGroup
+    from rpft.rapidpro.models.containers import RapidProContainer
+
+    raw, me = [], []
+    res = CompileResult()
+    with LogCapture() as cap:
+        try:
+            container = RapidProContainer()
+            p = FlowParser(container, flow_name, table_from_rows(headers, rows), context=copy.deepcopy(context) if context else None)
+            me.append(p)
+            with hook.sink(_raw_sink(lambda: raw, NodeGroup, lambda q: q is me[0])):
+                p.parse()
+            res.doc = container.render()
+        except BaseException as e:  # noqa: BLE001
+            if isinstance(e, (KeyboardInterrupt, SystemExit)):
+                raise
+            res.exc = f"{type(e).__name__}: {e}"
+    res.errors = cap.errors()
+    res.warnings = cap.warnings()
+    return res, _normalise_compile(raw)
+
+
+def _normalise_compile(raw):
     # normalise: push [+ begin_edges] → open ; pop + closed → close
     events = []
     i = 0
@@ -124,7 +178,7 @@ def trace_compile(headers, rows, context=None, flow_name="flow"):
             i += 1
         else:
             i += 1
-    return res, events
+    return events
 
 
 def _canon_nodes(nodes, invented):
@@ -229,23 +283,46 @@ def trace_structure(headers, rows, context=None):
         items = [(k, repr(v)) for k, v in ctx.items() if k not in c0 or repr(c0[k]) != repr(v)]
         return sorted(items)
 
+    def on_push():
+        pos, key = state["last"]
+        state["begins"].append(pos)
+        real.append(["open", pos])
+
+    def on_pop():
+        real.append(["close", state["begins"].pop()])
+
+    def on_row():
+        pos, key = state["last"]
+        real.append(["row", pos, [list(p) for p in key]])
+
+    use_hook = hook.available()
+    me = []
+
+    def sink(name, d):
+        if not me or d["parser"] is not me[0]:
+            return
+        if name == "push":
+            on_push()
+        elif name == "pop":
+            on_pop()
+        elif name == "row":
+            on_row()
+
     class Stack(list):
         def append(self, x):
-            pos, key = state["last"]
-            state["begins"].append(pos)
-            real.append(["open", pos])
+            on_push()
             super().append(x)
 
         def pop(self, *a):
-            real.append(["close", state["begins"].pop()])
+            on_pop()
             return super().pop(*a)
 
-    class Tracer(FlowParser):
+    class LegacyTracer(FlowParser):
         def _parse_row(self, row):
-            pos, key = state["last"]
-            real.append(["row", pos, [list(p) for p in key]])
+            on_row()
             super()._parse_row(row)
 
+    Tracer = FlowParser if use_hook else LegacyTracer
     res = CompileResult()
     with LogCapture() as cap:
         try:
@@ -271,8 +348,13 @@ def trace_structure(headers, rows, context=None):
                 return (row, idx) if return_index else row
 
             sp.parse_next_row = wrapped
-            p.node_group_stack = Stack(p.node_group_stack)
-            p.parse()
+            if use_hook:
+                me.append(p)
+                with hook.sink(sink):
+                    p.parse()
+            else:
+                p.node_group_stack = Stack(p.node_group_stack)
+                p.parse()
             res.doc = container.render()
         except BaseException as e:  # noqa: BLE001
             if isinstance(e, (KeyboardInterrupt, SystemExit)):
@@ -355,6 +437,7 @@ def trace_index(sheets: dict, tags=None):
 
     cur = [None]        # the raw event list being written
     per_flow = {}
+    use_hook = hook.available()
 
     class Stack(list):
         def append(self, x):
@@ -365,24 +448,8 @@ def trace_index(sheets: dict, tags=None):
             cur[0].append({"ev": "pop"})
             return super().pop(*a)
 
-    class Tracer(FlowParser):
-        def __init__(self, *a, **kw):
-            super().__init__(*a, **kw)
-            self.node_group_stack = Stack(self.node_group_stack)
-
-        def _parse_row(self, row):
-            cur[0].append({"ev": "row", "row": row_json(row)})
-            super()._parse_row(row)
-
-        def _parse_noop_row(self, row, store_row_id=True):
-            if not store_row_id:
-                cur[0].append({"ev": "begin_edges", "edges": _edges_json(row)})
-            super()._parse_noop_row(row, store_row_id)
-
-        def append_node_group(self, g, row_id):
-            if isinstance(g, NodeGroup) and not getattr(g, "_inserted", False):
-                cur[0].append({"ev": "closed", "row_id": row_id or ""})
-            super().append_node_group(g, row_id)
+    class Scoped(FlowParser):
+        """public entry points only: which flow / inserted block the events belong to"""
 
         def parse_as_block(self):
             parent = cur[0]
@@ -405,14 +472,37 @@ def trace_index(sheets: dict, tags=None):
                 per_flow[self.flow_name] = mine
                 cur[0] = None
 
+    class LegacyTracer(Scoped):
+        def __init__(self, *a, **kw):
+            super().__init__(*a, **kw)
+            self.node_group_stack = Stack(self.node_group_stack)
+
+        def _parse_row(self, row):
+            cur[0].append({"ev": "row", "row": row_json(row)})
+            super()._parse_row(row)
+
+        def _parse_noop_row(self, row, store_row_id=True):
+            if not store_row_id:
+                cur[0].append({"ev": "begin_edges", "edges": _edges_json(row)})
+            super()._parse_noop_row(row, store_row_id)
+
+        def append_node_group(self, g, row_id):
+            if isinstance(g, NodeGroup) and not getattr(g, "_inserted", False):
+                cur[0].append({"ev": "closed", "row_id": row_id or ""})
+            super().append_node_group(g, row_id)
+
+    Tracer = Scoped if use_hook else LegacyTracer
+    tracing = (hook.sink(_raw_sink(lambda: cur[0], NodeGroup, lambda q: isinstance(q, Scoped))) if use_hook
+               else contextlib.nullcontext())
     res = CompileResult()
     saved = cip.FlowParser
     cip.FlowParser = Tracer
     try:
         with LogCapture() as cap:
             try:
-                parser = cip.ContentIndexParser(mem_reader(sheets), None, TagMatcher(tags or []))
-                res.doc = parser.parse_all().render()
+                with tracing:
+                    parser = cip.ContentIndexParser(mem_reader(sheets), None, TagMatcher(tags or []))
+                    res.doc = parser.parse_all().render()
             except BaseException as e:  # noqa: BLE001
                 if isinstance(e, (KeyboardInterrupt, SystemExit)):
                     raise
